@@ -6,6 +6,10 @@
 #include "calls.hh"
 #include "oracle_fan.hh"
 #include <OpenVolumeMesh/Attribs/StatusAttrib.hh>
+#include <OpenVolumeMesh/Attribs/ColorAttrib.hh>
+#include <OpenVolumeMesh/Attribs/TexCoordAttrib.hh>
+#include <OpenVolumeMesh/Attribs/NormalAttrib.hh>
+#include <OpenVolumeMesh/Attribs/InterfaceAttrib.hh>
 #include <OpenVolumeMesh/FileManager/FileManager.hh>
 #include <OpenVolumeMesh/IO/ovmb_read.hh>
 
@@ -33,6 +37,7 @@ struct EngCfg {
     bool allow_status_gc = false; // C04: StatusAttrib::garbage_collection with handle tracking / manifoldness
     bool chk_fan = false;     // C09 oracles after every step
     std::string load_base;    // start from a file of the repository's test data instead of an empty mesh
+    bool attribs = false;     // C03: attach ColorAttrib/TexCoordAttrib/NormalAttrib/InterfaceAttrib/StatusAttrib and judge them through their accessors
     bool persistent_tags = false; // C13: identity tags survive mesh copies
     std::string prop_prefix = "p";
 };
@@ -553,7 +558,7 @@ struct Engine {
         for (int h = 0; h < s.nf; ++h) { sn.tag[2].push_back(fid(h)); sn.del[2].push_back(s.fdel[h]); }
         for (int h = 0; h < s.nc; ++h) { sn.tag[3].push_back(cid(h)); sn.del[3].push_back(s.cdel[h]); }
         sn.ev = s.ev; sn.fhe = s.fhe; sn.chf = s.chf;
-        for (auto &p : props) { std::vector<std::string> v; for (size_t i = 0; i < p->size(); ++i) v.push_back(p->get((int)i)); sn.pv.push_back(v); }
+        for (auto &p : props) { std::vector<std::string> v; size_t n = p->size() == (size_t)-1 ? (size_t)n_of_pkind(p->kind) : p->size(); for (size_t i = 0; i < n; ++i) v.push_back(p->get((int)i)); sn.pv.push_back(v); }
         return sn;
     }
     void do_swap(int kind, int a, int b) {
@@ -869,7 +874,7 @@ struct Engine {
         int writes = 1 + (int)rng.below(6);
         for (int w = 0; w < writes; ++w) {
             auto &p = props[2 + rng.below(props.size() - 2)];
-            int n = std::min<int>(n_of_pkind(p->kind), (int)p->size());
+            int n = p->size() == (size_t)-1 ? n_of_pkind(p->kind) : std::min<int>(n_of_pkind(p->kind), (int)p->size());
             if (n == 0) continue;
             int i = (int)rng.below(n);
             if (!slot_live(p->kind, i)) continue;
@@ -881,6 +886,7 @@ struct Engine {
     // new slots [from,to) of property kind pk must show each property's default value
     void check_fresh_defaults(int pk, int from, int to) {
         for (auto &p : props) if (p->kind == pk && p.get() != hetag && p.get() != hftag) {
+            if (p->size() == (size_t)-1) { for (int i = from; i < to; ++i) { ctx.cnt.add("prop.default-checks"); VF_CHECK(p->get(i) == p->def(), "oracle:prop.fresh-default", p->label << " new slot " << i << " shows " << p->get(i) << " default " << p->def()); } continue; }
             VF_CHECK((int)p->size() >= to, "oracle:prop.size-after-add", p->label << " has " << p->size() << " slots, mesh needs " << to);
             for (int i = from; i < to; ++i) {
                 ctx.cnt.add("prop.default-checks");
@@ -891,7 +897,7 @@ struct Engine {
     void check_props() {
         for (auto &p : props) {
             int n = n_of_pkind(p->kind);
-            VF_CHECK((int)p->size() == n, "oracle:prop.size", p->label << " has " << p->size() << " slots, mesh has " << n << " entities" << (after_clear_props ? " [after clear(true)]" : ""));
+            if (p->size() != (size_t)-1) VF_CHECK((int)p->size() == n, "oracle:prop.size", p->label << " has " << p->size() << " slots, mesh has " << n << " entities" << (after_clear_props ? " [after clear(true)]" : ""));
             VF_CHECK(p->attached(), "oracle:prop.detached", p->label << " reports being detached");
             for (int i = 0; i < n; ++i) {
                 if (!slot_live(p->kind, i)) continue;
@@ -984,6 +990,12 @@ struct Engine {
             auto lv = live_v(); if (lv.size() < 2) { op_add_vertex(); return; }
             int a = rng.pick(lv), b = rng.pick(lv);
             bool poly = KIND == 0;
+            if (model.pending[1] && rng.chance(1, 3)) {
+                // re-add an edge that is deleted but not yet collected (either direction): a look-alike that must not be returned
+                std::vector<int> cand;
+                for (int x = 0; x < s.ne; ++x) if (s.edel[x] && s.ev[x][0] >= 0 && s.ev[x][0] < s.nv && s.ev[x][1] >= 0 && s.ev[x][1] < s.nv && !s.vdel[s.ev[x][0]] && !s.vdel[s.ev[x][1]] && s.ev[x][0] != s.ev[x][1]) cand.push_back(x);
+                if (!cand.empty()) { int x = rng.pick(cand); bool rev = rng.chance(1, 2); ctx.cls("add_edge:re-add-deleted"); op_add_edge(s.ev[x][rev], s.ev[x][!rev], false); return; }
+            }
             if (a == b && !(poly && cfg.allow_loops && rng.chance(1, 3))) return;
             bool dup = poly && cfg.allow_dups && rng.chance(1, 3);
             if (a == b) dup = true;
@@ -1033,8 +1045,32 @@ struct Engine {
         adopt_new(0, 0, 0, 0);
         rescan();
     }
+    void attach_attribs() {
+        namespace E = ovm::Entity;
+        Vec3d cdef(0.25, 0.5, 0.75), tdef(1, 2, 3);
+        auto col = std::make_shared<ovm::ColorAttrib<Vec3d>>(mesh, cdef);
+        auto tex = std::make_shared<ovm::TexCoordAttrib<Vec3d>>(mesh, tdef);
+        auto nrm = std::make_shared<ovm::NormalAttrib<M>>(mesh);
+        auto itf = std::make_shared<ovm::InterfaceAttrib>(mesh);
+        auto sta = std::make_shared<ovm::StatusAttrib>(mesh);
+        std::string cd = Val<Vec3d>::repr(cdef), td = Val<Vec3d>::repr(tdef), zd = Val<Vec3d>::repr(Vec3d(0, 0, 0)), sd = Val<ovm::OpenVolumeMeshStatus>::repr(ovm::OpenVolumeMeshStatus());
+        using CA = ovm::ColorAttrib<Vec3d>; using ST = ovm::OpenVolumeMeshStatus;
+        props.push_back(std::make_unique<AttribProp<CA, VertexHandle, Vec3d, 0>>(col, "V/ColorAttrib", cd)); props.push_back(std::make_unique<AttribProp<CA, EdgeHandle, Vec3d, 1>>(col, "E/ColorAttrib", cd));
+        props.push_back(std::make_unique<AttribProp<CA, HalfEdgeHandle, Vec3d, 2>>(col, "HE/ColorAttrib", cd)); props.push_back(std::make_unique<AttribProp<CA, FaceHandle, Vec3d, 3>>(col, "F/ColorAttrib", cd));
+        props.push_back(std::make_unique<AttribProp<CA, HalfFaceHandle, Vec3d, 4>>(col, "HF/ColorAttrib", cd)); props.push_back(std::make_unique<AttribProp<CA, CellHandle, Vec3d, 5>>(col, "C/ColorAttrib", cd));
+        props.push_back(std::make_unique<AttribProp<ovm::TexCoordAttrib<Vec3d>, VertexHandle, Vec3d, 0>>(tex, "V/TexCoordAttrib", td));
+        props.push_back(std::make_unique<AttribProp<ovm::NormalAttrib<M>, VertexHandle, Vec3d, 0>>(nrm, "V/NormalAttrib", zd)); props.push_back(std::make_unique<AttribProp<ovm::NormalAttrib<M>, FaceHandle, Vec3d, 3>>(nrm, "F/NormalAttrib", zd));
+        props.push_back(std::make_unique<AttribProp<ovm::InterfaceAttrib, VertexHandle, bool, 0>>(itf, "V/InterfaceAttrib", "0")); props.push_back(std::make_unique<AttribProp<ovm::InterfaceAttrib, EdgeHandle, bool, 1>>(itf, "E/InterfaceAttrib", "0"));
+        props.push_back(std::make_unique<AttribProp<ovm::InterfaceAttrib, FaceHandle, bool, 3>>(itf, "F/InterfaceAttrib", "0"));
+        props.push_back(std::make_unique<AttribProp<ovm::StatusAttrib, VertexHandle, ST, 0>>(sta, "V/StatusAttrib", sd)); props.push_back(std::make_unique<AttribProp<ovm::StatusAttrib, EdgeHandle, ST, 1>>(sta, "E/StatusAttrib", sd));
+        props.push_back(std::make_unique<AttribProp<ovm::StatusAttrib, HalfEdgeHandle, ST, 2>>(sta, "HE/StatusAttrib", sd)); props.push_back(std::make_unique<AttribProp<ovm::StatusAttrib, FaceHandle, ST, 3>>(sta, "F/StatusAttrib", sd));
+        props.push_back(std::make_unique<AttribProp<ovm::StatusAttrib, HalfFaceHandle, ST, 4>>(sta, "HF/StatusAttrib", sd)); props.push_back(std::make_unique<AttribProp<ovm::StatusAttrib, CellHandle, ST, 5>>(sta, "C/StatusAttrib", sd));
+        ctx.op("attach ColorAttrib, TexCoordAttrib, NormalAttrib, InterfaceAttrib, StatusAttrib");
+        ctx.cls("attribs-attached");
+    }
     void run() {
         if (!cfg.load_base.empty()) load_file(cfg.load_base);
+        if (cfg.attribs) attach_attribs();
         if (cfg.allow_props) { int n = 3 + (int)rng.below(5); for (int i = 0; i < n; ++i) op_create_prop(); }
         for (int i = 0; i < cfg.build_steps; ++i) { build_step(); if (cfg.allow_props && rng.chance(1, 2)) op_write_props(); check_all(); }
         for (int i = 0; i < cfg.steps; ++i) { mutate_step(); check_all(); }
